@@ -39,7 +39,7 @@ theorem tcpValid_fields (a b : Alloc) (h1 : b.u8 = a.u8) (h2 : b.atoms = a.atoms
 denotes what `ret` denoted, nothing else changed observably -/
 structure RestoredWith (a : Alloc) (cp : TCheckpoint) (ret : Ptr) (a' : Alloc) (q : Ptr) : Prop where
   inv : Inv a'
-  heapOk : HeapOk a'
+  heapOk : HeapOk a → HeapOk a'
   counts : abs a' = abs a
   valid : Valid a' q
   tree : treeOf a' q = treeOf a ret
@@ -50,26 +50,127 @@ theorem abs_eq_of_counts {a b : Alloc} (h1 : atomCount b = atomCount a) (h2 : pa
     (h3 : heapSize b = heapSize a) (h4 : b.heapLimit = a.heapLimit) : abs b = abs a := by
   unfold abs; rw [h1, h2, h3, h4]
 
-theorem restoredT_restoredWith (a : Alloc) (cp : TCheckpoint) (ret : Ptr) (hI : Inv a) (hH : HeapOk a)
+theorem restoredT_restoredWith (a : Alloc) (cp : TCheckpoint) (ret : Ptr) (hI : Inv a)
     (hv : TCpValid a cp) (hr : ValidAt cp ret) : RestoredWith a cp ret (restoredT a cp) ret := by
   have ⟨c1, c2, c3⟩ := restoredT_counts a cp hv
   refine ⟨restoredT_inv a cp hI hv, ?_, abs_eq_of_counts c1 c2 c3 rfl, restoredT_valid a cp hv hr,
     restoredT_treeOf a cp hv hr, fun p hp => ⟨restoredT_valid a cp hv hp, restoredT_treeOf a cp hv hp⟩,
     fun c hc hle => restoredT_tcpValid a cp c hv hc hle⟩
+  intro hH
   unfold HeapOk at *
   unfold heapSize at c3
   show (restoredT a cp).u8.length + (restoredT a cp).ghostHeap ≤ a.heapLimit
   omega
 
+/-- the `AfterNewBytes` branch: the surviving atom is re-created as a heap atom after the restore -/
+theorem restoredWith_newBytes (a : Alloc) (cp : TCheckpoint) (i s e : Nat) (hI : Inv a) (hv : TCpValid a cp)
+    (hget : a.atoms[i]? = some (s, e)) (hse : s ≤ e) (heu : e ≤ a.u8.length)
+    (hi : ¬ i < cp.atoms) (hs : ¬ s < cp.u8s) :
+    RestoredWith a cp (.bytes i)
+      { restoredT a cp with
+          u8 := (restoredT a cp).u8 ++ (a.u8.drop s).take (e - s),
+          atoms := (restoredT a cp).atoms ++
+            [((restoredT a cp).u8.length, ((restoredT a cp).u8 ++ (a.u8.drop s).take (e - s)).length)],
+          ghostAtoms := (restoredT a cp).ghostAtoms - 1,
+          ghostHeap := (restoredT a cp).ghostHeap - ((a.u8.drop s).take (e - s)).length }
+      (.bytes (restoredT a cp).atoms.length) := by
+  have h1 := hv.u8s; have h2 := hv.atoms; have h3 := hv.pairs
+  have ⟨l1, l2, l3⟩ := restoredT_lengths a cp hv
+  have ⟨c1, c2, c3⟩ := restoredT_counts a cp hv
+  have hlt : i < a.atoms.length := by
+    rcases Nat.lt_or_ge i a.atoms.length with h | h
+    · exact h
+    · rw [List.getElem?_eq_none h] at hget; cases hget
+  have hga : (restoredT a cp).ghostAtoms = a.ghostAtoms + (a.atoms.length - cp.atoms) := rfl
+  have hgh : (restoredT a cp).ghostHeap = a.ghostHeap + (a.u8.length - cp.u8s) := rfl
+  have hI1 := restoredT_inv a cp hI hv
+  have hca := hI.atomCap
+  unfold atomCount at c1
+  unfold heapSize at c3
+  unfold pairCount at c2
+  have hbuf : ((a.u8.drop s).take (e - s)).length = e - s := length_drop_take _ _ _ hse heu
+  generalize hb : (a.u8.drop s).take (e - s) = buf at *
+  -- the allocator just before the atom is re-created
+  generalize ha3 : ({ restoredT a cp with
+      ghostAtoms := (restoredT a cp).ghostAtoms - 1,
+      ghostHeap := (restoredT a cp).ghostHeap - buf.length } : Alloc) = a3
+  have f1 : a3.u8 = (restoredT a cp).u8 := by rw [← ha3]
+  have f2 : a3.atoms = (restoredT a cp).atoms := by rw [← ha3]
+  have f3 : a3.pairs = (restoredT a cp).pairs := by rw [← ha3]
+  have f4 : a3.ghostAtoms = (restoredT a cp).ghostAtoms - 1 := by rw [← ha3]
+  have f5 : a3.ghostHeap = (restoredT a cp).ghostHeap - buf.length := by rw [← ha3]
+  have f6 : a3.ghostPairs = (restoredT a cp).ghostPairs := by rw [← ha3]
+  have f7 : a3.heapLimit = a.heapLimit := by rw [← ha3]; rfl
+  have hI3 : Inv a3 := ⟨by rw [f1, f2, f3]; exact hI1.closed, by rw [f2, f4, l2, hga]; omega,
+    by rw [f3, f6]; exact hI1.pairCap, by rw [f7]; exact hI.limit⟩
+  have hc3 : atomCount a3 + 1 = atomCount a := by
+    unfold atomCount; rw [f2, f4, l2, hga]; omega
+  have hh3 : heapSize a3 + buf.length = heapSize a := by
+    unfold heapSize; rw [f1, f5, l1, hgh, hbuf]; omega
+  have hp3 : pairCount a3 = pairCount a := by
+    unfold pairCount; rw [f3, f6]; exact c2
+  generalize ha4 : ({ restoredT a cp with
+          u8 := (restoredT a cp).u8 ++ buf,
+          atoms := (restoredT a cp).atoms ++
+            [((restoredT a cp).u8.length, ((restoredT a cp).u8 ++ buf).length)],
+          ghostAtoms := (restoredT a cp).ghostAtoms - 1,
+          ghostHeap := (restoredT a cp).ghostHeap - buf.length } : Alloc) = a4
+  rw [← f2]
+  have g1 : a4.u8 = a3.u8 ++ buf := by rw [← ha4, f1]
+  have g2 : a4.atoms = a3.atoms ++ [(a3.u8.length, (a3.u8 ++ buf).length)] := by rw [← ha4, f1, f2]
+  have g3 : a4.pairs = a3.pairs := by rw [← ha4, f3]
+  have g4 : a4.ghostAtoms = a3.ghostAtoms := by rw [← ha4, f4]
+  have g5 : a4.ghostHeap = a3.ghostHeap := by rw [← ha4, f5]
+  have g6 : a4.ghostPairs = a3.ghostPairs := by rw [← ha4, f6]
+  have g7 : a4.heapLimit = a3.heapLimit := by rw [← ha4, f7]; rfl
+  have hE : Ext a3 a4 := Ext.mk' buf [(a3.u8.length, (a3.u8 ++ buf).length)] [] g1 g2 (by rw [g3]; simp) g7
+    (fun s' e' h => by simp at h; left; omega)
+  have hI4 : Inv a4 := by
+    refine ⟨?_, ?_, ?_, ?_⟩
+    · rw [g1, g2, g3]
+      exact (hI3.closed.mono_u8 (by simp)).push_atom (by simp) (Nat.le_refl _)
+    · rw [g2, g4]; simp only [List.length_append, List.length_singleton]
+      unfold atomCount at hc3; omega
+    · rw [g3, g6]; exact hI3.pairCap
+    · rw [g7]; exact hI3.limit
+  have hT3 : ∀ c, TCpValid (restoredT a cp) c → TCpValid a3 c :=
+    fun c hc => tcpValid_fields (restoredT a cp) a3 f1 f2 f3 hc
+  have hget4 : a4.atoms[a3.atoms.length]? = some (a3.u8.length, (a3.u8 ++ buf).length) := by
+    rw [g2]; simp
+  refine ⟨hI4, ?_, ?_, ?_, ?_, ?_, ?_⟩
+  · intro hH
+    unfold HeapOk at *
+    unfold heapSize at hh3
+    rw [g1, g5, g7, f7, List.length_append]; omega
+  · apply abs_eq_of_counts
+    · unfold atomCount at *; rw [g2, g4]; simp only [List.length_append, List.length_singleton]; omega
+    · unfold pairCount at *; rw [g3, g6]; exact hp3
+    · unfold heapSize at *; rw [g1, g5, List.length_append]; omega
+    · rw [g7, f7]
+  · show a3.atoms.length < a4.atoms.length; rw [g2]; simp
+  · rw [treeOf_bytes, treeOf_bytes, atomBytes_of_getElem? hget, hb, atomBytes_of_getElem? hget4, g1]
+    rw [List.drop_left, List.length_append, Nat.add_sub_cancel_left, List.take_length]
+  · intro p hp
+    have hvp : Valid a3 p := by
+      have := restoredT_valid a cp hv hp
+      unfold Valid at *; rw [f2, f3]; exact this
+    refine ⟨hE.valid hvp, ?_⟩
+    rw [hE.treeOf hI3 hvp, treeOf_fields (restoredT a cp) a3 f1 f2 f3, restoredT_treeOf a cp hv hp]
+  · intro c hc hle
+    exact hE.tcpValid (hT3 c (restoredT_tcpValid a cp c hv hc hle))
+
+
 inductive MrOutcome (a : Alloc) (cp : TCheckpoint) (ret : Ptr) : MaybeRestore → Alloc → Prop where
   | aborted : MrOutcome a cp ret .aborted a
   | noReplace (a' : Alloc) : RestoredWith a cp ret a' ret → MrOutcome a cp ret .noReplace a'
-  | replace (a' : Alloc) (q : Ptr) : RestoredWith a cp ret a' q → MrOutcome a cp ret (.replace q) a'
+  /-- the replacement of a heap atom is again a heap atom (representation preserved) -/
+  | replace (a' : Alloc) (q : Ptr) : (∃ i j, ret = .bytes i ∧ q = .bytes j) → RestoredWith a cp ret a' q →
+      MrOutcome a cp ret (.replace q) a'
 
 /-- **`maybe_restore_with_node` under the invariant**: never `InternalError` / `OutOfMemory` /
 `TooManyAtoms` / panic; `Aborted` changes nothing; otherwise counts are unchanged and the surviving
 or replacement node denotes the same tree, as does every node older than the checkpoint. -/
-theorem maybeRestore_ok (a : Alloc) (cp : TCheckpoint) (ret : Ptr) (hI : Inv a) (hH : HeapOk a)
+theorem maybeRestore_ok (a : Alloc) (cp : TCheckpoint) (ret : Ptr) (hI : Inv a)
     (hv : TCpValid a cp) (hr : Valid a ret) :
     ∃ r a', maybeRestoreWithNode a cp ret = (.ok r, a') ∧ MrOutcome a cp ret r a' := by
   have h1 := hv.u8s; have h2 := hv.atoms; have h3 := hv.pairs
@@ -84,12 +185,12 @@ theorem maybeRestore_ok (a : Alloc) (cp : TCheckpoint) (ret : Ptr) (hI : Inv a) 
     cases ret with
     | small v =>
       simp only [checkpointNodeStatus]
-      exact ⟨_, _, rfl, .noReplace _ (restoredT_restoredWith a cp _ hI hH hv hr)⟩
+      exact ⟨_, _, rfl, .noReplace _ (restoredT_restoredWith a cp _ hI hv hr)⟩
     | pair i =>
       simp only [checkpointNodeStatus]
       by_cases hi : i < cp.pairs
       · rw [if_pos hi]
-        exact ⟨_, _, rfl, .noReplace _ (restoredT_restoredWith a cp _ hI hH hv hi)⟩
+        exact ⟨_, _, rfl, .noReplace _ (restoredT_restoredWith a cp _ hI hv hi)⟩
       · rw [if_neg hi]
         have hlt : i < a.pairs.length := hr
         have hget : a.pairs[i]? = some a.pairs[i] := List.getElem?_eq_getElem hlt
@@ -99,7 +200,7 @@ theorem maybeRestore_ok (a : Alloc) (cp : TCheckpoint) (ret : Ptr) (hI : Inv a) 
       simp only [checkpointNodeStatus]
       by_cases hi : i < cp.atoms
       · rw [if_pos hi]
-        exact ⟨_, _, rfl, .noReplace _ (restoredT_restoredWith a cp _ hI hH hv hi)⟩
+        exact ⟨_, _, rfl, .noReplace _ (restoredT_restoredWith a cp _ hI hv hi)⟩
       · rw [if_neg hi]
         obtain ⟨s, e, hget, hse, heu⟩ := valid_bytes_get a hI i hr
         have hlt : i < a.atoms.length := hr
@@ -122,11 +223,12 @@ theorem maybeRestore_ok (a : Alloc) (cp : TCheckpoint) (ret : Ptr) (hI : Inv a) 
           have hrange : (decide (e < s) || decide (e > (restoredT a cp).u8.length)) = false := by
             rw [l1]; simp; omega
           rw [if_neg (by rw [hrange]; simp)]
-          refine ⟨_, _, rfl, .replace _ _ ?_⟩
+          refine ⟨_, _, rfl, .replace _ _ ⟨_, _, rfl, rfl⟩ ?_⟩
           have hcl := (hI1.closed).push_atom (s := s) (e := e) hse (by rw [l1]; exact hecp)
           refine ⟨⟨hcl, ?_, hI1.pairCap, hI.limit⟩, ?_, ?_, ?_, ?_, ?_, ?_⟩
           · simp only [List.length_append, List.length_singleton]; rw [l2, hga]; omega
-          · unfold HeapOk at *
+          · intro hH
+            unfold HeapOk at *
             show (restoredT a cp).u8.length + (restoredT a cp).ghostHeap ≤ a.heapLimit
             omega
           · apply abs_eq_of_counts
@@ -170,69 +272,7 @@ theorem maybeRestore_ok (a : Alloc) (cp : TCheckpoint) (ret : Ptr) (hI : Inv a) 
             have hne : ((restoredT a cp).ghostAtoms == 0) = false := by rw [hga]; simp; omega
             rw [if_neg (by rw [hne]; simp)]
             rw [if_neg (by rw [hgh, hbuf]; omega)]
-            -- the allocator just before the atom is re-created
-            generalize ha3 : ({ restoredT a cp with
-                ghostAtoms := (restoredT a cp).ghostAtoms - 1,
-                ghostHeap := (restoredT a cp).ghostHeap - ((a.u8.drop s).take (e - s)).length } : Alloc) = a3
-            have f1 : a3.u8 = (restoredT a cp).u8 := by rw [← ha3]
-            have f2 : a3.atoms = (restoredT a cp).atoms := by rw [← ha3]
-            have f3 : a3.pairs = (restoredT a cp).pairs := by rw [← ha3]
-            have f4 : a3.ghostAtoms = (restoredT a cp).ghostAtoms - 1 := by rw [← ha3]
-            have f5 : a3.ghostHeap = (restoredT a cp).ghostHeap - ((a.u8.drop s).take (e - s)).length := by rw [← ha3]
-            have f6 : a3.ghostPairs = (restoredT a cp).ghostPairs := by rw [← ha3]
-            have f7 : a3.heapLimit = a.heapLimit := by rw [← ha3]; rfl
-            have hI3 : Inv a3 := ⟨by rw [f1, f2, f3]; exact hI1.closed, by rw [f2, f4, l2, hga]; omega,
-              by rw [f3, f6]; exact hI1.pairCap, by rw [f7]; exact hI.limit⟩
-            have hc3 : atomCount a3 + 1 = atomCount a := by
-              unfold atomCount; rw [f2, f4, l2, hga]; omega
-            have hh3 : heapSize a3 + ((a.u8.drop s).take (e - s)).length = heapSize a := by
-              unfold heapSize; rw [f1, f5, l1, hgh, hbuf]; omega
-            have hp3 : pairCount a3 = pairCount a := by
-              unfold pairCount; rw [f3, f6]; exact c2
-            have href := newAtom_refines a3 ((a.u8.drop s).take (e - s)) hI3
-            have hrefok : (abs a3).newAtom ((a.u8.drop s).take (e - s)) =
-                .ok (.atom ((a.u8.drop s).take (e - s)),
-                     { abs a3 with atomCount := (abs a3).atomCount + 1,
-                                   heapSize := (abs a3).heapSize + ((a.u8.drop s).take (e - s)).length }) := by
-              unfold RefAlloc.newAtom
-              have e1 : (abs a3).heapSize = heapSize a3 := rfl
-              have e2 : (abs a3).heapLimit = a3.heapLimit := rfl
-              have e3 : (abs a3).atomCount = atomCount a3 := rfl
-              unfold HeapOk at hH
-              unfold heapSize atomCount at *
-              rw [if_neg (by omega), if_neg (by omega)]
-            rw [hrefok] at href
-            generalize newAtom a3 ((a.u8.drop s).take (e - s)) = out at href
-            obtain ⟨res, a4⟩ := out
-            cases res with
-            | error er => exact absurd href (by simp [Refines])
-            | ok q =>
-              obtain ⟨ha, ht, hvq, hI4, hE⟩ := href
-              refine ⟨_, _, rfl, .replace _ _ ?_⟩
-              have habs : abs a4 = abs a := by
-                rw [ha]
-                show (⟨_, _, _, _⟩ : RefAlloc) = ⟨_, _, _, _⟩
-                have e1 : (abs a3).heapSize = heapSize a3 := rfl
-                have e2 : (abs a3).heapLimit = a3.heapLimit := rfl
-                have e3 : (abs a3).atomCount = atomCount a3 := rfl
-                have e4 : (abs a3).pairCount = pairCount a3 := rfl
-                rw [e1, e2, e3, e4, hc3, hh3, hp3, f7]
-              have hT3 : ∀ c, TCpValid (restoredT a cp) c → TCpValid a3 c :=
-                fun c hc => tcpValid_fields (restoredT a cp) a3 f1 f2 f3 hc
-              refine ⟨hI4, ?_, habs, hvq, ?_, ?_, ?_⟩
-              · unfold HeapOk at *
-                have := congrArg RefAlloc.heapSize habs
-                have hl := congrArg RefAlloc.heapLimit habs
-                simp only [abs, heapSize] at this hl
-                omega
-              · rw [ht, treeOf_bytes, atomBytes_of_getElem? hget]
-              · intro p hp
-                have hvp : Valid a3 p := by
-                  have := restoredT_valid a cp hv hp
-                  unfold Valid at *; rw [f2, f3]; exact this
-                refine ⟨hE.valid hvp, ?_⟩
-                rw [hE.treeOf hI3 hvp, treeOf_fields (restoredT a cp) a3 f1 f2 f3, restoredT_treeOf a cp hv hp]
-              · intro c hc hle
-                exact hE.tcpValid (hT3 c (restoredT_tcpValid a cp c hv hc hle))
+            refine ⟨_, _, rfl, .replace _ _ ⟨_, _, rfl, rfl⟩ ?_⟩
+            exact restoredWith_newBytes a cp i s e hI hv hget hse heu hi hs
 
 end Clvm.Alloc
